@@ -28,9 +28,41 @@ fn closure(n: usize, mut m: Vec<Vec<bool>>) -> Vec<Vec<bool>> {
     m
 }
 
+/// closure by a search from every node: O(n (n + m)), for graphs too large for the cubic closure
+fn closure_by_search(n: usize, adj: &[Vec<usize>]) -> Vec<Vec<bool>> {
+    let mut out = vec![vec![false; n]; n];
+    for a in 0..n {
+        let row = &mut out[a];
+        row[a] = true;
+        let mut stack = vec![a];
+        while let Some(x) = stack.pop() {
+            for &y in &adj[x] {
+                if !row[y] {
+                    row[y] = true;
+                    stack.push(y);
+                }
+            }
+        }
+    }
+    out
+}
+
 impl Reach {
     pub fn new(s: &Snap) -> Reach {
         let n = s.n();
+        if n > 600 {
+            let mut a: Vec<Vec<usize>> = vec![vec![]; n];
+            let mut u: Vec<Vec<usize>> = vec![vec![]; n];
+            for &(x, y, _) in &s.edges {
+                a[x].push(y);
+                if !s.directed {
+                    a[y].push(x);
+                }
+                u[x].push(y);
+                u[y].push(x);
+            }
+            return Reach { n, r: closure_by_search(n, &a), w: closure_by_search(n, &u) };
+        }
         let mut a = vec![vec![false; n]; n];
         let mut u = vec![vec![false; n]; n];
         for &(x, y, _) in &s.edges {
@@ -45,8 +77,24 @@ impl Reach {
     }
     fn classes(&self, same: impl Fn(usize, usize) -> bool) -> BTreeSet<BTreeSet<usize>> {
         let mut out = BTreeSet::new();
+        let mut assigned = vec![false; self.n];
         for a in 0..self.n {
-            out.insert((0..self.n).filter(|b| same(a, *b)).collect::<BTreeSet<usize>>());
+            if assigned[a] {
+                continue;
+            }
+            let class: BTreeSet<usize> = (0..self.n).filter(|b| same(a, *b)).collect();
+            if class.iter().any(|b| assigned[*b]) {
+                // `same` is not an equivalence here (cannot happen for the closures above): fall back to per-node classes
+                let mut all = BTreeSet::new();
+                for x in 0..self.n {
+                    all.insert((0..self.n).filter(|b| same(x, *b)).collect::<BTreeSet<usize>>());
+                }
+                return all;
+            }
+            for &b in &class {
+                assigned[b] = true;
+            }
+            out.insert(class);
         }
         out
     }
